@@ -173,9 +173,13 @@ def run(ctx):
                        "subset, d in {1,2,5} ms) + %d tables of synthesized files (1/3 with split runs / zero-count entries) + %d "
                        "malformed table sets (missing boxes, unsorted stss, zero timescales, count mismatches); corr T: the built "
                        "segmenter's printed plan on %d synthesized files; corr R/F/M: resegmenter tool, Fragmentify, combine-segs "
-                       "split points; distinct = distinct case lines; search: built tools on synthesized files (1-2 tracks, 1-36 "
+                       "split points, AddFullSampleToTrack interleavings (incl. unknown and duplicate ids), AddSampleDefaultValues on "
+                       "all flag combinations; distinct = distinct case lines; search: deterministic grid (sync spacing x frame count x "
+                       "5 target durations x {v, v+a, a+v} x {single, lazy, mux}) + random built-tool runs on synthesized files (1-2 tracks, 1-36 "
                        "video samples, sync spacing 1..12/irregular, ctts none/zero/positive/negative, durations constant/variable/"
-                       "zero, 6 target-duration rules, modes single/lazy/mux, moov-first/mdat-first, stco/co64), oracle = "
+                       "zero, sdtp, 6 target-duration rules, modes single/lazy/mux, moov-first/mdat-first, stco/co64); resegmenter tool and "
+                       "Fragmentify on fragmented inputs (1-40 samples, 1-3 fragments per segment, styp/no styp, init/no init, "
+                       "OptimizeTrun on/off, decode-time gaps in 1/12); combine-segs tool on pairs of single-fragment inputs; oracle = "
                        "concatenated per-track (bytes,dur,flags,cto,dts) of all outputs equals the input's + first video sample "
                        "of each segment is sync" % (n, n, nt))
     shutil.rmtree(TMP, ignore_errors=True)
